@@ -49,6 +49,7 @@ import DateutilVerif.Proofs.RRuleWeeknoYearly
 import DateutilVerif.Proofs.RRuleOrig
 import DateutilVerif.Proofs.RRuleSecondly
 import DateutilVerif.Proofs.RRuleSupported
+import DateutilVerif.Proofs.RRuleAmbient
 
 namespace C01
 open RRule Cal RRule.Tables
@@ -204,6 +205,35 @@ theorem construct_origArgs (a : Args) (r : Rule) (h : construct a = .ok r) (hsp 
 example : (do let r ← construct { freq := 3, dtstart := ⟨2000, 1, 1, 0, 0, 0, 0⟩, bysetpos := some [] }
               let r' ← construct (origArgs { freq := 3, dtstart := ⟨2000, 1, 1, 0, 0, 0, 0⟩, bysetpos := some [] } r)
               pure (r.bysetpos, r'.bysetpos)) = .ok (some [], none) := by decide +kernel
+
+/-- **the ambient first weekday is an input only when `wkst` is not supplied.**  `constructW k a` is
+    `rrule.__init__` while `calendar.firstweekday()` is `k` (process-wide, `calendar.setfirstweekday`);
+    `construct` is the case `k = 0`, the interpreter's default.  With an explicit `wkst` — including `wkst=MO`
+    / `wkst=0` — the built rule, hence everything iterated from it, does not depend on `k`; without `wkst` the
+    week start is `k`.  (The per-run correspondence and oracle streams build rules under every `k = 0..6`.) -/
+theorem explicit_wkst_ignores_ambient (k : Int) (a : Args) :
+    (∀ w, a.wkst = some w → constructW k a = construct a) ∧
+    (a.wkst = none → constructW k a = construct { a with wkst := some k }) ∧
+    constructW 0 a = construct a :=
+  ⟨fun w h => constructW_explicit k a w h, constructW_none k a, constructW_zero a⟩
+
+/-- … and the exactness theorems hold under every ambient first weekday, read on the resolved arguments -/
+theorem iter_eq_spec_supported_ambient_partial (k : Int) (a : Args) (r : Rule) (h : constructW k a = .ok r) (f : Family)
+    (hs : SupportedBy (resolveW k a) f) (n : Nat) (hr : inRange (resolveW k a) f n) :
+    ∃ m, n ≤ m ∧ m ≤ f.periodsPerTurn * n ∧ (iter r n).1 = Spec.RRule.occ (resolveW k a) m :=
+  iter_eq_spec_supported_ambient k a r h f hs n hr
+
+/-- the integrator's example: WEEKLY, interval 2, TU+SU from Tue 1997-08-05, explicit `wkst=MO`, built while the
+    ambient first weekday is Sunday: the weeks still start on Monday -/
+example : (match constructW 6 { freq := 2, interval := 2, count := some 4, wkst := some 0,
+                                dtstart := ⟨1997, 8, 5, 9, 0, 0, 0⟩, byweekday := some [(1, 0), (6, 0)] } with
+           | .ok r => (iterDT r 4).1.map (fun (t : DT) => (t.m, t.d)) | .error _ => []) =
+    [(8, 5), (8, 10), (8, 19), (8, 24)] := by decide +kernel
+/-- … and without `wkst` they start on Sunday -/
+example : (match constructW 6 { freq := 2, interval := 2, count := some 4,
+                                dtstart := ⟨1997, 8, 5, 9, 0, 0, 0⟩, byweekday := some [(1, 0), (6, 0)] } with
+           | .ok r => (iterDT r 4).1.map (fun (t : DT) => (t.m, t.d)) | .error _ => []) =
+    [(8, 5), (8, 17), (8, 19), (8, 31)] := by decide +kernel
 
 /-! ### 3. every rule, every fuel: start / until / count, whole seconds -/
 
